@@ -42,8 +42,8 @@ class H:
         self.name = f"observe_on|{via}|{''.join(seq)}|raise={raise_at}"
         self.sig = "observe_on"
         self.focus = ilv.focus_files("observer/scheduledobserver.py", "observer/observeonobserver.py")
-        self.allow_thread_errors = raise_at is not None
-        self.sync_log = True  # lock acquisitions per function, for the trace-inclusion binding to SchedObs.tla
+        self.allow_thread_errors = raise_at is not None and not via.endswith("+catch")
+        self.sync_log = not via.endswith("+catch")  # lock acquisitions per function, for the trace-inclusion binding to SchedObs.tla
 
     def setup(self, run):
         from reactivex import operators as ops
@@ -53,6 +53,11 @@ class H:
 
         st = {"run": run, "deliv": [], "n": 0}
         sch = EventLoopScheduler()
+        if self.via.endswith("+catch"):
+            # a scheduler that survives a raising delivery: the loop thread keeps serving whatever is scheduled afterwards
+            from reactivex.scheduler import CatchScheduler
+
+            sch = CatchScheduler(sch, lambda e: True)
         st["sch"] = sch
         h = self
 
@@ -82,7 +87,7 @@ class H:
             def on_completed(self_):
                 self_._d("C", None)
 
-        if self.via == "observer":
+        if self.via.startswith("observer"):
             st["target"] = ObserveOnObserver(sch, Down())
         else:
             subj = Subject()
@@ -250,6 +255,9 @@ def harnesses(tier):
                 hs.append(H(seq, None, via))
                 for j in range(1, len(seq) + 1):
                     hs.append(H(seq, j, via))
+            for j in range(1, len(seq)):  # a raise that is not at the last delivery, on a scheduler that survives it
+                if tier == "thorough" or len(seq) <= 3:
+                    hs.append(H(seq, j, "observer+catch"))
     for pre in (0, 1):
         for during in ((1,) if tier == "quick" else (1, 2)):
             hs.append(HReplay(pre, during))
@@ -269,7 +277,7 @@ def shard(part, shard_i, nshards, tier, seed, deadline, dot_path=None):
     for i, h in enumerate(hs):
         if (i + seed) % nshards == shard_i:
             pb = bounds(tier) if not isinstance(h, HReplay) else max(1, bounds(tier) - 1)
-            if isinstance(h, H):
+            if isinstance(h, H) and h.sync_log:
                 h.part = part
             ilvrun.explore_all(part, [h], 0, 1, pb, 0, deadline, horizon=5.0)
     if GRAPH is not None:
